@@ -66,9 +66,9 @@ def run_check(mod, pid, tier, seed, t0, update_baseline):
     bundle = mod.build(repo, tier, seed)
     vcs = bundle["vcs"]
     sanity = bundle.get("sanity", [])
-    results = discharge_split(vcs + sanity, seeds=(1, 2, 3) if tier == "thorough" else ())
-    res_main = results[:len(vcs)]
-    res_sanity = results[len(vcs):]
+    results = discharge_split(vcs + sanity, seeds=(1, 2, 3) if tier == "thorough" else ()) if (vcs or sanity) else []
+    res_main = results[:len(vcs)] + bundle.get("results", [])
+    res_sanity = results[len(vcs):] + bundle.get("sanity_results", [])
     baseline = load_json(BASELINE, {}).get(pid, {})
     findings = [f for f in load_json(FINDINGS, {"findings": []})["findings"] if f["property"] == pid]
 
@@ -117,6 +117,11 @@ def run_check(mod, pid, tier, seed, t0, update_baseline):
         still = replay_mod.finding_still_fails(f)
         if still:
             known_lines.append(f"KNOWN-FINDING: property={pid} {f['id']} {f['what']}")
+
+    for fr in load_json(FINDINGS, {}).get("fixed_replays", []):
+        if fr["property"] == pid and replay_mod.finding_still_fails({"witness": fr["witness"]}):
+            path = replay_mod.write(pid, "fixed-finding-returned", fr["witness"], [fr.get("commit", "")])
+            violations.append(f"VIOLATION property={pid} replay={path}")
 
     hashes = bundle.get("hashes", {})
     for g, bad in sorted(failing.items()):
